@@ -197,6 +197,33 @@ func main() {
 		emit(run, h)
 		run.Dist["forced:one-sender-300-nonces-then-replayed"]++
 	}
+	// forced: one sender fills its per-block mempool quota (and more) through CheckTx before the
+	// block that carries the same transactions is executed; the replicas of a pair see different
+	// subsets of those CheckTx calls (seeded C09h let DeliverTx read the mempool's per-sender count)
+	{
+		g := appdrv.Genesis{ChainID: "verif-chain", Threshold: 2, Validators: []appdrv.KV{{K: make([]byte, 32), P: 10}}}
+		for i := 0; i < 3; i++ {
+			g.Keypers = append(g.Keypers, u.Addrs[i].Bytes())
+		}
+		h := appdrv.History{Genesis: g}
+		for b := int64(1); b <= 2; b++ {
+			var txs [][]byte
+			for i := 0; i < 14; i++ {
+				txs = append(txs, appdrv.SignTx(u.Keys[0], g.ChainID, uint64(7000+100*int(b)+i), shmsg.NewBlockSeen(uint64(i))))
+			}
+			for _, t := range txs {
+				h.Calls = append(h.Calls, appdrv.Call{Kind: "check", Tx: t, Note: "mempool quota"})
+			}
+			h.Calls = append(h.Calls, appdrv.Call{Kind: "begin", Height: b})
+			for _, t := range txs {
+				h.Calls = append(h.Calls, appdrv.Call{Kind: "deliver", Tx: t, Note: "mempool quota"})
+			}
+			h.Calls = append(h.Calls, appdrv.Call{Kind: "end", Height: b}, appdrv.Call{Kind: "commit"})
+		}
+		replicate(run, h, run.Scale(8, 40), "C09:replicas-diverge")
+		emit(run, h)
+		run.Dist["forced:sender-over-mempool-quota"]++
+	}
 	n := run.Scale(300, 6000)
 	for i := 0; i < n; i++ {
 		g := &appdrv.Gen{U: u, R: run.RNG.Fork(), Weird: i%5 == 0}
